@@ -24,7 +24,7 @@ from .values import *   # noqa: F401,F403
 
 
 class Frame:
-    __slots__ = ("locals", "globs", "func", "entry_g", "ret", "ret_g", "loops", "closure", "cls", "globals_declared")
+    __slots__ = ("locals", "globs", "func", "entry_g", "ret", "ret_g", "loops", "closure", "cls", "globals_declared", "nonlocals_declared")
 
     def __init__(self, locals_, globs, func=None, entry_g=True, closure=None, cls=None):
         self.locals = locals_
@@ -37,6 +37,7 @@ class Frame:
         self.closure = closure
         self.cls = cls
         self.globals_declared = None
+        self.nonlocals_declared = None
 
 
 class Loop:
@@ -105,6 +106,7 @@ class Engine:
         self.hooks = {}                   # harness-level hooks
         self.lazy_pkgs = set()            # packages whose __init__ is only run on demand
         self.range_cap = None
+        self.active_exc = []
         self.known = []
         self.known_hits = []
         self.job_name = ""
@@ -489,14 +491,52 @@ class Engine:
         fr.globals_declared.update(st.names)
 
     def x_Nonlocal(self, st):
-        raise Unsupported("nonlocal statement")
+        fr = self.frame
+        if fr.nonlocals_declared is None:
+            fr.nonlocals_declared = set()
+        fr.nonlocals_declared.update(st.names)
 
     def x_Assert(self, st):
         c = self.truth(self.ev(st.test))
         self.throw_if(self.b_not(c), "AssertionError", "assert")
 
     def x_Delete(self, st):
-        raise Unsupported("del statement")
+        for t in st.targets:
+            if isinstance(t, ast.Name):
+                self.commit()
+                fr = self.frame
+                if t.id not in fr.locals:
+                    self.throw("NameError", t.id)
+                del fr.locals[t.id]
+            elif isinstance(t, ast.Subscript):
+                o = self.ev(t.value)
+                if isinstance(o, PDict):
+                    k = self.hashable(self.ev(t.slice))
+                    if k not in o.d:
+                        self.throw("KeyError", str(k))
+                    self.structural(o)
+                    del o.d[k]
+                elif isinstance(o, PList) or (isinstance(o, Bytes) and o.mutable):
+                    if isinstance(t.slice, ast.Slice):
+                        rng = self.slice_range(t.slice, len(o.items))
+                        self.structural(o)
+                        for i in sorted(rng, reverse=True):
+                            del o.items[i]
+                    else:
+                        i = self.index_of(self.ev(t.slice), len(o.items))
+                        self.structural(o)
+                        del o.items[i]
+                else:
+                    self.throw("TypeError", "object doesn't support item deletion")
+            elif isinstance(t, ast.Attribute):
+                o = self.ev(t.value)
+                if isinstance(o, Obj) and t.attr in o.d:
+                    self.structural(o)
+                    del o.d[t.attr]
+                else:
+                    self.throw("AttributeError", t.attr)
+            else:
+                raise Unsupported("del target")
 
     def x_Import(self, st):
         for a in st.names:
@@ -562,7 +602,10 @@ class Engine:
             elif dn == "abstractmethod":
                 pass
             else:
-                raise Unsupported(f"decorator {dn}")
+                dec = self.ev(d)
+                if not isinstance(dec, (Native, Func, Bound)):
+                    raise Unsupported(f"decorator {dn}")
+                v = self.call(dec, [v], {})
         self.store_name(st.name, v)
 
     def x_ClassDef(self, st):
@@ -652,10 +695,14 @@ class Engine:
         t = st.target
         if isinstance(t, ast.Name):
             cur = self.load_name(t.id)
+            if self.inplace(st.op, cur, st.value):
+                return
             self.store_name(t.id, self.binop(st.op, cur, self.ev(st.value)))
         elif isinstance(t, ast.Attribute):
             o = self.ev(t.value)
             cur = self.getattr(o, t.attr)
+            if self.inplace(st.op, cur, st.value):
+                return
             self.setattr(o, t.attr, self.binop(st.op, cur, self.ev(st.value)))
         elif isinstance(t, ast.Subscript):
             o = self.ev(t.value)
@@ -666,6 +713,21 @@ class Engine:
             self.setitem(o, idx, self.binop(st.op, cur, self.ev(st.value)))
         else:
             raise Unsupported("augassign target")
+
+    def inplace(self, op, cur, value_node):
+        """`x += y` / `x *= n` mutate bytearrays and lists in place (aliases see the change)"""
+        if isinstance(cur, PList) or (isinstance(cur, Bytes) and cur.mutable):
+            if isinstance(op, ast.Add):
+                v = self.ev(value_node)
+                m = self.methods[("list" if isinstance(cur, PList) else "bytes", "extend")]
+                m(self, cur, v)
+                return True
+            if isinstance(op, ast.Mult):
+                n = self.concretize(self.ev(value_node))
+                self.structural(cur)
+                cur.items[:] = cur.items * n
+                return True
+        return False
 
     def assign(self, t, v):
         if isinstance(t, ast.Name):
@@ -727,6 +789,15 @@ class Engine:
             # module state mutated at run time: keep it exact by refusing to predicate it
             self.commit()
             fr.globs[name] = v
+            return
+        if fr.nonlocals_declared and name in fr.nonlocals_declared:
+            f = fr.closure
+            while f is not None and name not in f.locals:
+                f = f.closure
+            if f is None:
+                raise Unsupported("nonlocal name not found")
+            self.commit()
+            f.locals[name] = v
             return
         old = fr.locals.get(name, NOTSET)
         g = self.g
@@ -908,7 +979,10 @@ class Engine:
 
     def x_Raise(self, st):
         if st.exc is None:
-            raise Unsupported("bare raise")
+            if not self.active_exc:
+                self.throw("RuntimeError", "No active exception to reraise")
+            self.commit()
+            raise self.active_exc[-1]
         e = self.ev(st.exc)
         if isinstance(e, Cls):
             e = self.instantiate(e, [], {})
@@ -940,6 +1014,7 @@ class Engine:
                 if self.exc_matches(exc, hc):
                     caught = exc
                     exc = None
+                    self.active_exc.append(caught)
                     try:
                         if h.name:
                             self.store_name(h.name, caught.obj)
@@ -947,6 +1022,8 @@ class Engine:
                     except PyExc as e2:
                         exc = e2
                         self.g = True
+                    finally:
+                        self.active_exc.pop()
                     break
         if st.finalbody:
             before = (fr.ret, fr.ret_g)
@@ -1740,6 +1817,9 @@ class Engine:
         d = self.mk_dict()
         self._comp(e.generators, lambda: d.d.__setitem__(self.hashable(self.ev(e.key)), self.ev(e.value)))
         return d
+
+    def e_Set(self, e):
+        return tuple(self._elts(e.elts))          # sets are only used for membership tests in this code base
 
     def e_NamedExpr(self, e):
         v = self.ev(e.value)
